@@ -154,7 +154,11 @@ def sum_pool(rng: random.Random) -> list:
     d = X.NthPower(x + X.Constant(1.0) + x, 2)
     e = (a - g.expr(1)) / (b + X.Constant(3.0))
     f = X.Add(X.Add(g.expr(1), g.expr(1)), X.Multiply(X.Multiply(x, g.expr(1)), y), a)
-    return rng.sample([a, b, c, d, e, f], 3)
+    # binary nodes whose right operand mentions variables the left one lacks
+    sx = X.Sine(x)
+    h = X.Multiply(X.Power(X.Add(X.NthPower(x, 2), X.Constant(1.0)), y), X.Divide(sx, z), X.Minus(sx, w))
+    k = X.Logarithm(X.Power(X.Exponential(x), X.Multiply(y, z)))
+    return rng.sample([a, b, c, d, e, f], 2) + [rng.choice([h, k])]
 
 
 class Runner:
